@@ -105,7 +105,7 @@ var c02Interesting = map[string]bool{
 	"encoder.Encode": true, "f.saveFileList": true, "f.checked.Load": true,
 	"f.Sheet.Delete": true, "f.checked.Delete": true, "sheet.checkRow": true,
 	"sheet.checkSheet": true, "f.Sheet.Store": true, "f.checked.Store": true,
-	"ws.checkSheet": true, "ws.checkRow": true, "f.Sheet.Load": true,
+	"ws.checkSheet": true, "ws.checkRow": true, "f.Sheet.Load": true, "f.workSheetReader": true,
 }
 
 func c02Skeleton(n ast.Node) []string {
@@ -219,6 +219,14 @@ func init() {
 			fmt.Fprintf(w, "def workSheetReaderCalls : List String := %s\n\n", c02LeanList(c02Skeleton(wsr.Body)))
 		}
 
+		w.WriteString("/-! sheet.go copySheet: loads source and target, then stores the copy in the cache -/\n")
+		if cs := funcDecl("File", "copySheet"); cs == nil {
+			fail("C02: (*File).copySheet")
+			fmt.Fprintf(w, "def copySheetCalls : List String := []\n\n")
+		} else {
+			fmt.Fprintf(w, "def copySheetCalls : List String := %s\n\n", c02LeanList(c02Skeleton(cs.Body)))
+		}
+
 		w.WriteString("/-! sheet.go trimRow / trimCell: slot discipline -/\n")
 		tr := funcDecl("", "trimRow")
 		incrUncond := false
@@ -249,6 +257,7 @@ func init() {
 		c02Cond(w, "fillColumnsGuard", funcDecl("", "fillColumns"), "fillColumns", "cellCount")
 		c02Cond(w, "prepareSheetXMLGuard", funcDecl("xlsxWorksheet", "prepareSheetXML"), "prepareSheetXML", "rowCount <")
 		c02Cond(w, "checkRowGuard", funcDecl("xlsxWorksheet", "checkRow"), "checkRow", "colCount", "lastCol")
+		c02Cond(w, "checkRowWidenGuard", funcDecl("xlsxWorksheet", "checkRow"), "checkRow", "colNum", "lastCol")
 		c02Cond(w, "getCellLastRowGuard", funcDecl("File", "getCellStringFunc"), "getCellStringFunc", "lastRowNum")
 		c02Cond(w, "getCellRowMatch", funcDecl("File", "getCellStringFunc"), "getCellStringFunc", "rowData.R")
 		c02Cond(w, "getCellRefMatch", funcDecl("File", "getCellStringFunc"), "getCellStringFunc", "colData.R")
